@@ -9,6 +9,7 @@
    create_proof sends nothing except the Get of its internal read of a block that is not held.
    Partial by nature: that every subscriber receives the same sequence is a property of async_broadcast
    (capacity 32), covered by tools/c13.py with 1-3 subscribers and < 32 undrained events. *)
+From HC Require Import SoundCoreLib SoundCore ReplicaCor.
 From HC Require Import Base NMap Codec Crypto FlatTree Storage Bitfield Oplog Merkle Core CoreFacts.
 From HC Require Import EventsAvail.
 
@@ -170,6 +171,51 @@ Theorem C13_failed_apply_characterised :
              SW Oplog (ENTRIES_OFFSET + ol_entries_bytes (c_oplog c)) fr :: block_write pf off ++ w_journal w)).
 Proof. exact apply_failure. Qed.
 
+Theorem C13_replica_bits_below_length :
+  forall (cr : crypto) (bs : list bytes) (c : core) (d : disk), RInv cr bs c d -> bounded c.
+Proof. exact RInv_bounded. Qed.
+
+Theorem C13_accepted_proof_keeps_bits_below_length :
+  forall cr : crypto,
+         (forall x : bytes, Datatypes.length (cr_hash cr x) = 32%nat) ->
+         (forall x : bytes, all_zero (cr_hash cr x) = false) ->
+         forall bs : list bytes,
+         writer_fits bs ->
+         forall (f : option bool) (pf : proof) (c : core) (d : disk) (j : list sop) 
+           (ev : list event) (c' : core) (w' : world),
+         RInv cr bs c d ->
+         SoundCoreBU.block_upgrade_ok pf ->
+         core_apply_proof cr f pf c {| w_disk := d; w_journal := j; w_events := ev |} = (c', w', Ok true) ->
+         RInv cr bs c' (w_disk w') /\
+         bounded c' /\
+         t_length (c_tree c) <= t_length (c_tree c') /\
+         (forall b : data_block, p_block pf = Some b -> db_index b < t_length (c_tree c')) \/
+         Sound.some_collision cr \/ forged_signature cr bs (kp_public (c_keypair c)).
+Proof. exact apply_keeps_bounded_replica. Qed.
+
+Theorem C13_replica_history_availability :
+  forall cr : crypto,
+         (forall x : bytes, Datatypes.length (cr_hash cr x) = 32%nat) ->
+         (forall x : bytes, all_zero (cr_hash cr x) = false) ->
+         forall bs : list bytes,
+         writer_fits bs ->
+         forall (ops : list op) (c : core) (w : world) (c' : core) (w' : world) (oks : list bool),
+         RInv cr bs c (w_disk w) ->
+         kp_secret (c_keypair c) = None ->
+         Forall replica_op ops ->
+         run_ops cr ops c w = (c', w', oks) ->
+         applies_ok ops oks ->
+         RInv cr bs c' (w_disk w') /\
+         bounded c' /\
+         c_keypair c' = c_keypair c /\
+         t_length (c_tree c) <= t_length (c_tree c') /\
+         (exists evs : list event,
+            w_events w' = evs ++ w_events w /\
+            (forall i : N, core_has c' i = core_has c i || announced evs i) /\
+            (forall i : N, announced evs i = true -> i < t_length (c_tree c'))) \/
+         Sound.some_collision cr \/ forged_signature cr bs (kp_public (c_keypair c)).
+Proof. exact replica_history_avail. Qed.
+
 Print Assumptions C13_append_events.
 Print Assumptions C13_apply_events.
 Print Assumptions C13_get_events.
@@ -192,3 +238,6 @@ Print Assumptions EventsAvail.toy_writer_history.
 Print Assumptions EventsAvail.toy_replica_history.
 Print Assumptions EventsAvail.late_failure_breaks_equation.
 Print Assumptions EventsAvail.apply_bounded_needs_store_invariant.
+Print Assumptions C13_replica_bits_below_length.
+Print Assumptions C13_accepted_proof_keeps_bits_below_length.
+Print Assumptions C13_replica_history_availability.
